@@ -13,6 +13,10 @@
  2. code -> spec: seeded random contents (dozens of items, nesting <= 3, NaN patterns, non-UTF-8 strings, arbitrary raw type codes) go
     through every implementation; content, C++ bytes and the outcome per implementation are logged and TLC validates each line
     (WireTrace.tla): bytes = Flatten(content), and agreement wherever Common(impl, content) - the repertoire is the specification's decision.
+ 2b. native detours: each other implementation builds the content once more through ITS OWN mutating API; live message.py objects go through the
+    aliasing histories of WireHeap.tla (size and bytes after every call); the Python transceiver also ORIGINATES frames of a status Message it
+    keeps, changes through a sub-Message reference and resends; frame body sizes sweep 2030..2060, the mini gateway's 2 x (body + 8) growth and
+    64 KiB shrink, with every gateway as sender and as receiver.
  3. frames: batches of Messages through MessageIOGateway / MGDoOutput / UGDoOutput into in-memory pipes with random slicing, each stream
     read back by the others; TLC validates stream = FrameStream(bytes).  Python transceiver thread: echo session over loopback TCP.
 """
@@ -124,6 +128,38 @@ def run(v, tier, seed):
                 with lock: samples.append({"kind": "recorded line validated by TLC", "line": {kk: x for kk, x in ln.items() if kk != "b"}})
             os.remove(tr); os.remove(rep)
 
+    # ---- 3a: frame body sizes across the receivers' internal thresholds, every gateway as sender and as receiver
+    def sizes():
+        tr = W("sizes.trace.ndjson"); rep = W("sizes.rep.ndjson")
+        rows, summ = wirelib.run_wire(v, ["x08sizes", seed, tr, rep] + hargs, "frame size sweep", 400, "sizes")
+        wirelib.report_rows(v, rows, "frames whose body size crosses a receiver's buffer threshold (2030..2060, 2 x (body + 8), 64 KiB)", "sizes")
+        if summ.get("aborted"): return
+        with lock:
+            tot["comparisons"] += summ["comparisons"]; tot["frames"] += summ["sessions"]
+            notes["frame_size_sweep"] = {"sessions": summ["sessions"], "messages": summ["messages"], "bytes": summ["bytes"]}
+        if not v.violations:
+            validate(tr, "sizes", "frame size sweep")
+            os.remove(tr); os.remove(rep)
+
+    # ---- 3b: aliasing histories on LIVE message.py objects (WireHeap): size and bytes after every call
+    def pyheap(inst, n, depth):
+        name = mkcfg("Heap_" + inst, consts={"Inst": q(inst), "NObj": 3, "MaxItems": 3, "MaxRefs": 3, "SimDepth": depth}, invs=["HeapOK", "Acyclic"])
+        with _tlc_slots: r = vlib.tlc("WireHeap", name, wirelib.FAM, workers=1, timeout=3000, simulate=n, depth=depth + 3, seed=seed, heap="3g")
+        vlib.require_ok(r, "WireHeap %s" % inst)
+        beh = [b for b in r.printed if isinstance(b, list) and len(b) == depth + 1]
+        if len(beh) < n // 2: raise vlib.MachineryError("WireHeap printed %d behaviours, expected %d" % (len(beh), n))
+        bf = W("pyheap_%s.beh.ndjson" % inst); rep = W("pyheap_%s.rep.ndjson" % inst)
+        vlib.write_ndjson(bf, [{"id": i, "steps": st} for i, st in enumerate(beh)])
+        rows, summ = wirelib.run_wire(v, ["x08heap", bf, rep, "python3", helpers["wire_py"]], "aliasing histories on live message.py objects (%s)" % inst, 400 if quick else 2400, "pyheap_" + inst)
+        wirelib.report_rows(v, rows, "history on live message.py objects (sub-Messages changed through aliases, lists changed in place; size and bytes after every call)", "pyheap_" + inst)
+        if summ.get("aborted"): return
+        with lock:
+            tot["comparisons"] += summ["object_checks"]
+            ph = notes.setdefault("python_live_object_histories", {"behaviours": 0, "followed": 0, "calls": 0, "object_checks": 0})
+            ph["behaviours"] += summ["behaviours"]; ph["followed"] += summ["followed"]; ph["calls"] += summ["steps"]; ph["object_checks"] += summ["object_checks"]
+        if not v.violations:
+            os.remove(bf); os.remove(rep)
+
     # ---- 3: the Python transceiver thread, over loopback TCP
     def pyecho(n):
         def attempt(k):
@@ -148,7 +184,7 @@ def run(v, tier, seed):
         if summ.get("aborted"): return
         with lock:
             tot["comparisons"] += summ["sent"]
-            notes["python_transceiver"] = {"sent": summ["sent"], "echoed_identically": summ["echoed_identically"], "bytes": summ["bytes"]}
+            notes["python_transceiver"] = {"sent": summ["sent"], "echoed_identically": summ["echoed_identically"], "bytes": summ["bytes"], "resent_status_frames_identical": summ["resent_status_frames_identical"]}
         if not v.violations:
             validate(tr, "echo", "echo through the Python transceiver thread")
             os.remove(tr); os.remove(rep)
@@ -179,6 +215,8 @@ def run(v, tier, seed):
             fs += [ex.submit(random_vectors, k, per) for k in range(nsh)]
             if not quick: fs.append(ex.submit(random_vectors, 99, max(200, int(8000 * scale)), "asan"))
             fs.append(ex.submit(pyecho, 60 if quick else max(100, int(2000 * scale))))
+            fs.append(ex.submit(sizes))
+            fs += [ex.submit(pyheap, i, 100 if quick else max(200, int(3000 * scale)), 30 if quick else 45) for i in ("int16", "string", "raw")]
             f_self = ex.submit(selftest)
             errors = []          # a machinery failure must not mask a violation already found on the real code
             for f in fs:
@@ -209,7 +247,10 @@ def run(v, tier, seed):
            "byte_string_comparisons_in_the_harness": tot["comparisons"], "recorded_lines_validated_by_tlc": tot["tlc_lines"],
            "legs_asked_on_tlc_vectors": dict(zip(KEYS, tot["asked"])), "legs_outside_the_repertoire_on_tlc_vectors": dict(zip(KEYS, tot["outside"])),
            "recorded_lines_inside_python_repertoire": tot["pyok"], "recorded_lines_inside_python_native_repertoire": tot["pynative"],
-           "random": rnd, "python_transceiver": notes["python_transceiver"], "tlc_runs": notes["tlc"], "selftest": notes.get("selftest"),
+           "random": rnd, "python_transceiver": notes["python_transceiver"], "frame_size_sweep": notes.get("frame_size_sweep"), "python_live_object_histories": notes.get("python_live_object_histories"),
+           "native_construction": "every *_b leg = the content built once with the implementation's construction calls AND once more through its own mutating calls (mini: MMRenameField to a shorter / longer / "
+                                  "equally long name, MMRemoveField, replace-by-put, MMMoveField / MMCopyField, retainOldData growth; micro: one call per item, UMSetWhatCode afterwards; message.py: put over an existing "
+                                  "name, RemoveName, in-place list edits, sub-Messages filled through the parent's reference, sizing in the middle), the variant cycling per vector", "tlc_runs": notes["tlc"], "selftest": notes.get("selftest"),
            "evaluations": tot["vectors"], "distinct_nontrivial": tot["distinct"],
            "rule": "vectors = Message values enumerated by TLC (WireVec) + seeded random contents; distinct = distinct C++ encodings (per harness run), non-trivial = went through every implementation in whose repertoire it lies",
            "exhaustive": False, "programs_compared": ["muscle::Message (C++)", "MiniMessage.c", "MicroMessage.c", "message.py", "MessageIOGateway", "MiniMessageGateway.c", "MicroMessageGateway.c"] + (["message_transceiver_thread.py"] if programs == 8 else []),
